@@ -22,6 +22,28 @@
 (* TLC checks: Conserved (inflight = true live entries per value),         *)
 (* CounterOK (the cell equals |inflight|), Capped, ZeroAfterDrain, and     *)
 (* that the cell-based decision equals the set-based one (DecisionOK).     *)
+(*                                                                         *)
+(* Concurrent admission (K >= 1).  In the code the admission of a request  *)
+(* is NOT one step: the rule-check slot reads the cell and decides, and    *)
+(* only later the statistic slot records the admitted entry (cell + 1);    *)
+(* between the two (yield point "chain.checked" of the slot chain) other   *)
+(* callers may check, record and EXIT.  With K >= 1 the spec has that      *)
+(* grain: Check(r, v) parks a caller with its decision in `pend',          *)
+(* Record(id) makes it a live entry (or drops a refused one), Exit is a    *)
+(* separate action as before, and at most K callers are inside the         *)
+(* admission path at any time (the atomic Request counts as one while it   *)
+(* runs).  What the design guarantees at this grain:                       *)
+(*   - an entry is counted from the moment it is recorded until its exit,  *)
+(*     whatever happened between its check and its record: Conserved and   *)
+(*     CounterOK hold in EVERY state (so at quiescence exactly             *)
+(*     thr - live further entries are admitted);                           *)
+(*   - K callers that all saw room may all be admitted: the cap can be     *)
+(*     overshot by at most K - 1 (Capped, PendCapped) and by no more.      *)
+(* K = 0 is the sequential design (admission is one step).                 *)
+(* DropZero = TRUE is a second deliberately broken variant: the exit that  *)
+(* brings a cell to zero removes the cell from the cache and the record    *)
+(* step skips a missing cell - a caller parked between check and record    *)
+(* is then never counted (violates CounterOK only when K >= 1).            *)
 (***************************************************************************)
 EXTENDS HotParamArgs, FiniteSets, TLC
 
@@ -32,7 +54,9 @@ CONSTANTS
     Rules,      \* [Res -> [thr : Nat, items : [subset of Values -> Nat]]]
     MaxLive,    \* bound on simultaneously live entries
     MaxOps,     \* bound on the number of requests
-    Alias       \* FALSE: the design.  TRUE: broken variant (exit keyed by the latest arguments)
+    Alias,      \* FALSE: the design.  TRUE: broken variant (exit keyed by the latest arguments)
+    K,          \* 0: admission is one step.  K >= 1: check and record are separate steps, at most K callers in between
+    DropZero    \* FALSE: the design.  TRUE: broken variant (a cell that returns to zero is removed; record skips a missing cell)
 
 VARIABLES
     live,       \* id -> [res, v] of every live (admitted, not exited) entry
@@ -41,10 +65,12 @@ VARIABLES
     lastv,      \* value carried by the most recent request (any resource)
     nid,        \* number of requests so far (ids are 1..nid)
     dec,        \* [prop, impl] decisions of the last request (property level / cell based)
+    pend,       \* id -> [res, v, prop, impl]: callers that have checked and not yet recorded (K >= 1)
+    has,        \* [Res -> SUBSET Values]: values whose cell is present in the cache (changes only when DropZero)
     h           \* history (scenario for the conformance driver; hidden by VIEW)
 
-vars == <<live, inflight, cnt, lastv, nid, dec, h>>
-view == <<live, inflight, cnt, lastv, dec>>
+vars == <<live, inflight, cnt, lastv, nid, dec, pend, has, h>>
+view == <<live, inflight, cnt, lastv, dec, pend, has>>
 
 Thr(r, v) == ThrOf(Rules[r].items, Rules[r].thr, v)
 
@@ -61,15 +87,26 @@ Init ==
     /\ lastv = None
     /\ nid = 0
     /\ dec = [prop |-> TRUE, impl |-> TRUE]
+    /\ pend = << >>
+    /\ has = [r \in Res |-> Values]
     /\ h = << >>
+
+\* room for one more caller inside the admission path
+Room == K = 0 \/ Cardinality(DOMAIN pend) < K
+InUse == Cardinality(DOMAIN live) + Cardinality(DOMAIN pend)
+\* the check step creates a missing cell (AddIfAbsent); only the DropZero variant ever misses one
+Touch(r, v) == IF DropZero /\ v # None THEN [has EXCEPT ![r] = @ \cup {v}] ELSE has
 
 \* a request on a ruled resource; v = None: the selected argument is missing
 Request(r, v) ==
     /\ nid < MaxOps
+    /\ Room
+    /\ UNCHANGED pend
+    /\ has' = Touch(r, v)
     /\ nid' = nid + 1
     /\ dec' = [prop |-> Admit(inflight, r, v), impl |-> ImplAdmit(cnt, r, v)]
     /\ lastv' = IF v # None THEN v ELSE lastv
-    /\ IF Admit(inflight, r, v) /\ Cardinality(DOMAIN live) < MaxLive
+    /\ IF Admit(inflight, r, v) /\ InUse < MaxLive
          THEN /\ live' = live @@ ((nid + 1) :> [res |-> r, v |-> v])
               /\ inflight' = IF v = None THEN inflight ELSE [inflight EXCEPT ![r][v] = @ \cup {nid + 1}]
               /\ cnt' = IF v = None THEN cnt ELSE [cnt EXCEPT ![r][v] = @ + 1]
@@ -82,13 +119,41 @@ Request(r, v) ==
 \* pass through the same pooled option objects
 Other(o, v) ==
     /\ nid < MaxOps
-    /\ Cardinality(DOMAIN live) < MaxLive
+    /\ InUse < MaxLive
     /\ nid' = nid + 1
     /\ live' = live @@ ((nid + 1) :> [res |-> o, v |-> v])
     /\ lastv' = IF v # None THEN v ELSE lastv
     /\ dec' = [prop |-> TRUE, impl |-> TRUE]
     /\ h' = Append(h, [op |-> "req", id |-> nid + 1, res |-> o, v |-> v])
-    /\ UNCHANGED <<inflight, cnt>>
+    /\ UNCHANGED <<inflight, cnt, pend, has>>
+
+\* K >= 1, first half of the admission path (rule-check slot): the caller reads the cell, decides, and is parked
+\* with its decision before the statistic slot ("chain.checked")
+Check(r, v) ==
+    /\ K >= 1 /\ Room
+    /\ nid < MaxOps
+    /\ InUse < MaxLive                        \* (prunes the model only)
+    /\ nid' = nid + 1
+    /\ dec' = [prop |-> Admit(inflight, r, v), impl |-> ImplAdmit(cnt, r, v)]
+    /\ pend' = pend @@ ((nid + 1) :> [res |-> r, v |-> v, prop |-> Admit(inflight, r, v), impl |-> ImplAdmit(cnt, r, v)])
+    /\ has' = Touch(r, v)
+    /\ lastv' = IF v # None THEN v ELSE lastv
+    /\ h' = Append(h, [op |-> "chk", id |-> nid + 1, res |-> r, v |-> v])
+    /\ UNCHANGED <<live, inflight, cnt>>
+
+\* second half (statistic slot): an admitted caller becomes a live entry and is counted - for the value it was
+\* checked with, whatever happened to the other entries of that value in between; a refused one just leaves
+Record(id) ==
+    /\ id \in DOMAIN pend
+    /\ LET p == pend[id] IN
+        /\ pend' = [i \in DOMAIN pend \ {id} |-> pend[i]]
+        /\ IF p.prop
+             THEN /\ live' = live @@ (id :> [res |-> p.res, v |-> p.v])
+                  /\ inflight' = IF p.v = None THEN inflight ELSE [inflight EXCEPT ![p.res][p.v] = @ \cup {id}]
+                  /\ cnt' = IF p.v = None \/ p.v \notin has[p.res] THEN cnt ELSE [cnt EXCEPT ![p.res][p.v] = @ + 1]
+             ELSE UNCHANGED <<live, inflight, cnt>>
+    /\ h' = Append(h, [op |-> "rec", id |-> id])
+    /\ UNCHANGED <<lastv, nid, dec, has>>
 
 Exit(id) ==
     /\ id \in DOMAIN live
@@ -98,14 +163,18 @@ Exit(id) ==
        IN  /\ live' = [i \in DOMAIN live \ {id} |-> live[i]]
            /\ inflight' = IF e.res \in Res /\ e.v # None
                             THEN [inflight EXCEPT ![e.res][e.v] = @ \ {id}] ELSE inflight
-           /\ cnt' = IF e.res \in Res /\ iv # None
-                            THEN [cnt EXCEPT ![e.res][iv] = @ - 1] ELSE cnt
+           /\ cnt' = IF e.res \in Res /\ iv # None /\ iv \in has[e.res]
+                            THEN [cnt EXCEPT ![e.res][iv] = IF DropZero /\ @ - 1 <= 0 THEN 0 ELSE @ - 1] ELSE cnt
+           /\ has' = IF DropZero /\ e.res \in Res /\ iv # None /\ iv \in has[e.res] /\ cnt[e.res][iv] - 1 <= 0
+                            THEN [has EXCEPT ![e.res] = @ \ {iv}] ELSE has
     /\ h' = Append(h, [op |-> "exit", id |-> id])
-    /\ UNCHANGED <<lastv, nid, dec>>
+    /\ UNCHANGED <<lastv, nid, dec, pend>>
 
 Next ==
     \/ \E r \in Res, v \in Values \cup {None} : Request(r, v)
     \/ \E o \in Oth, v \in Values : Other(o, v)
+    \/ \E r \in Res, v \in Values \cup {None} : Check(r, v)
+    \/ \E id \in DOMAIN pend : Record(id)
     \/ \E id \in DOMAIN live : Exit(id)
 
 Spec == Init /\ [][Next]_vars
@@ -119,12 +188,22 @@ LiveFor(r, v) == { id \in DOMAIN live : live[id].res = r /\ live[id].v = v }
 Conserved == \A r \in Res, v \in Values : inflight[r][v] = LiveFor(r, v)
 \* ... and so does the integer cell of the implementation
 CounterOK == \A r \in Res, v \in Values : cnt[r][v] = Cardinality(LiveFor(r, v))
-\* never more live entries for a value than its threshold
-Capped    == \A r \in Res, v \in Values : Cardinality(LiveFor(r, v)) <= Thr(r, v)
+\* never more live entries for a value than its threshold - plus, with K callers inside the admission path at a
+\* time, the K - 1 others that saw room at the same moment (K <= 1: exactly the threshold)
+Slack     == IF K > 1 THEN K - 1 ELSE 0
+Capped    == \A r \in Res, v \in Values : Cardinality(LiveFor(r, v)) <= Thr(r, v) + Slack
+\* ... counting the admitted callers that are still parked before their record step as well
+PassedFor(r, v) == { id \in DOMAIN pend : pend[id].res = r /\ pend[id].v = v /\ pend[id].prop }
+PendCapped == \A r \in Res, v \in Values :
+                 Cardinality(LiveFor(r, v)) + Cardinality(PassedFor(r, v)) <= Thr(r, v) + Slack
+\* NOT an invariant for K >= 2 (TLC must find the overshoot: it shows that the callers really overlap in the model)
+CappedStrict == \A r \in Res, v \in Values : Cardinality(LiveFor(r, v)) <= Thr(r, v)
 \* returns to zero when everything has exited
 ZeroAfterDrain == (DOMAIN live = {}) => \A r \in Res, v \in Values : inflight[r][v] = {} /\ cnt[r][v] = 0
 \* the cell-based decision is the property-level decision
 DecisionOK == dec.prop = dec.impl
 
-TypeOK == nid \in 0..MaxOps /\ DOMAIN live \subseteq 1..MaxOps
+TypeOK == /\ nid \in 0..MaxOps /\ DOMAIN live \subseteq 1..MaxOps /\ DOMAIN pend \subseteq 1..MaxOps
+          /\ DOMAIN live \cap DOMAIN pend = {}
+          /\ Cardinality(DOMAIN pend) <= K
 =============================================================================
